@@ -7,7 +7,10 @@ void h_gstrs(void) {
   in_L.Store = &in_Lstore; in_U.Store = &in_Ustore; in_B.Store = &in_Bstore; in_Bstore.nzval = in_Bval; in_Gstat.ops = in_ops;
   @p@gstrs(in_trans, &in_L, &in_U, in_perm_r, in_perm_c, &in_B, &in_Gstat, &in_info);
   __CPROVER_assert(0, "canary: gstrs returns");
-#ifdef CONJ_UNIT
+#if TYPES
+  if (in_L.Dtype != DT) __CPROVER_assert(0, "canary: wrong L->Dtype reachable");
+  if (in_L.Dtype == DT && in_L.Stype == SLU_SCP && in_L.Mtype == SLU_TRLU && in_U.Stype == SLU_NCP && in_U.Dtype == DT && in_U.Mtype == SLU_TRU) __CPROVER_assert(0, "canary: wrong B type alone reachable");
+#elif defined(CONJ_UNIT)
   if (in_trans == CONJ && in_L.nrow == 2) __CPROVER_assert(0, "canary: CONJ with order 2 reachable");
 #else
   if (in_info == -1) __CPROVER_assert(0, "canary: info -1 reachable");
